@@ -2,7 +2,7 @@
 import logging
 import re
 
-from vlib import basic
+from vlib import basic, translated
 
 LEVEL = 'proof'
 RULE = ('per (adapter, graphics mode, active/visible page, viewport) configuration: integer-exact primitives '
@@ -20,11 +20,18 @@ EXPLANATION = ('theorems (PcbV.Props.C30): every cell assigned by graph_view[...
                'arguments, only the active page changes, a mode switch leaves the viewport on the active page, text mode '
                'gives Illegal function call; correspondence: '
                'changed-cell sets of the real Session against the compiled model; oracle: every changed cell of every '
-               'page lies in the viewport of the active page as tracked from the issued VIEW statements')
+               'page lies in the viewport of the active page as tracked from the issued VIEW statements'
+               '; source tie: GraphicsViewPort.width, height, get_bounds, _convert_coords, contains, get_mid, '
+               'cutoff_coord are translated mechanically from the current Python AST (PcbV.Gen.Translated.vp*, '
+               'gen/py2lean.py), proved equal to the View functions of the model for every state and all coordinates '
+               '(translated_vpBounds_eq, translated_vpConvert_eq, translated_vpContains_eq, translated_vpMid_eq, '
+               'translated_vpCutoff_eq) and compared with a real GraphicsViewPort (vlib/translated.py)')
 TRUSTED_BASE = ['models PcbV.Model.Viewport / PcbV.Model.Draw are hand transcriptions of graphics.py GraphicsViewPort and '
                 'the integer primitives, of ByteMatrix.__setitem__ index semantics and of _PixelAccess',
                 'the harness reads the pixel matrices of all pages from display.pages[i]._pixels',
-                'statements run inside a BASIC program with ON ERROR GOTO so that no error text is printed on the page']
+                'statements run inside a BASIC program with ON ERROR GOTO so that no error text is printed on the page',
+                'translator gen/py2lean.py + PcbV.PyInt (Python int semantics in Lean), validated by '
+                'vlib/translated.py against the real functions; it covers the listed functions only']
 ASSUMPTIONS = ['WINDOW scaling and the CIRCLE front end (aspect, arcs; host floats) are not modelled: oracle only',
                'Python list/bytearray slice semantics as documented (pySlice)']
 
@@ -1030,6 +1037,7 @@ def mode_part(ctx, video, n_hist, n_segments, seg_len, n_paint):
 
 
 def run(ctx):
+    translated.check_viewport(ctx)
     quick = ctx.quick
     configs = CONFIGS_QUICK if quick else CONFIGS_ALL
     for video in [v for v, _ in TEXT_CONFIGS]:
